@@ -161,6 +161,57 @@ def fields():
     return out, others
 
 
+BIAS_MODS = ('df_msg1059_biases', 'df_msg1065_biases', 'df_msg1230_biases')
+RE_BIAS_ENC = re.compile(r'let mut bias = (\w+)\.bias_m; bias /= ([0-9.eE_]+); let bias = if bias (>=|>) 0\.0 \{ bias \+ ([0-9.]+) \} else \{ bias - ([0-9.]+) \} as (\w+); '
+                         r'asm\.put::<(\w+)>\(bias, (\d+)\)\?;')
+RE_BIAS_DEC = (re.compile(r'let bias = par\.parse::<(\w+)>\((\d+)\)\? as (f32|f64);.*?bias_m: bias \* ([0-9.eE_]+)'),
+               re.compile(r'let bias_m = \(par\.parse::<(\w+)>\((\d+)\)\? as (f32|f64)\) \* ([0-9.eE_]+);'))
+
+
+def bias_fields():
+    """The three hand-written bias quantisers (C11 anchors; C16 'bias on its grid'), read into the same parameter record as a df! field."""
+    exp = common.expanded_source()
+    dfs = exp.find(['df', 'dfs'])
+    out = []
+    for c in dfs.children:
+        if c.kind != 'mod' or c.name not in BIAS_MODS:
+            continue
+        enc = dec = None
+        for d in c.children:
+            if d.kind == 'fn' and d.name == 'encode':
+                enc = norm_ws(strip_attrs_and_docs(exp.text[d.body_open + 1:d.end - 1]))
+            if d.kind == 'fn' and d.name == 'decode':
+                dec = norm_ws(strip_attrs_and_docs(exp.text[d.body_open + 1:d.end - 1]))
+        if enc is None or dec is None:
+            raise ToolLimit('%s: encode/decode missing' % c.name)
+        me = RE_BIAS_ENC.findall(enc)
+        md = [m for r in RE_BIAS_DEC for m in r.findall(dec)]
+        if len(me) != 1 or len(md) != 1:
+            raise ToolLimit('%s: the bias quantiser does not have the expected shape (encode matches: %d, decode matches: %d)' % (c.name, len(me), len(md)))
+        (_, res, op, cp, cn, cast, it, ln) = me[0]
+        (dit, dln, dcast, dres) = md[0]
+        if it not in CARRIER or dit not in CARRIER:
+            raise ToolLimit('%s: unknown carrier %s/%s' % (c.name, it, dit))
+        f = Field()
+        f.name = c.name + '__bias_m'
+        f.datatype = f.dt = dcast
+        f.optional = False
+        f.is_float = True
+        f.enc_text, f.dec_text = enc, dec
+        f.it, f.len, f.dec_cast, f.dec_res, f.dec_bias, f.dec_inv = dit, int(dln), dcast, dres, None, None
+        f.vt, f.bits, f.kind = CARRIER[dit]
+        f.enc_inv = f.enc_inv_it = f.enc_inv_len = f.enc_bias = f.enc_bias2 = None
+        f.enc_res = res
+        f.round, f.round_op, f.round_pos, f.round_neg = True, op, cp, '-' + cn
+        f.enc_cast_it = it if CARRIER[it][0] == cast else cast
+        f.enc_it, f.enc_len = it, int(ln)
+        f.hand_written = True
+        out.append(f)
+    if len(out) != len(BIAS_MODS):
+        raise ToolLimit('bias modules found: %s, expected %s' % ([f.name for f in out], list(BIAS_MODS)))
+    return out
+
+
 def pattern_range(f):
     """decoded integer range of the carrier value for every w-bit pattern"""
     w = f.len
